@@ -335,6 +335,13 @@ def replay_range(meta):
         v = mdl.get('x' + m.group(1), '0'); return str(int(F(str(v))))
     conc = re.sub(r'@(\d+)', val, text)
     binn = common.native_build([common.harness_path(HARNESS)], 'C18_native_r2', extra=['-I' + common.REPO], defs=['VERIF_NATIVE'])
+    if 'print' in str(meta.get('clause', '')):
+        # round-trip clause: parse, print with the real operator<<, parse the printed text, compare the two enumerations
+        rc, so, se = common.run_native(binn, 'rt %s\n' % conc, timeout=30); t = so.strip()
+        n = int(t.split()[0]) if t else -9
+        if n < 0: return n in (-3, -4), '"%s": printing and re-parsing fails with code %d (-3: printed text rejected, -4: its iteration does not end)' % (conc, n)
+        a, _, b = t.partition('|'); s1 = [int(x) for x in a.split()[1:]]; s2 = [int(x) for x in b.split()]
+        return s1 != s2, '"%s" enumerates %s; printed with operator<< and parsed again it enumerates %s' % (conc, s1, s2)
     rc, so, se = common.run_native(binn, 'range %s\n' % conc, timeout=30)
     t = so.split(); n = int(t[0]) if t else -9; got = [int(x) for x in t[1:]]
     exp = []; valid = True
